@@ -434,7 +434,7 @@ static void op_xml_named(const char *name)
   rc = hwloc_topology_init(&nt);
   if (rc == 0) {
     rc = hwloc_topology_set_type_filter(nt, HWLOC_OBJ_MISC, HWLOC_TYPE_FILTER_KEEP_ALL);
-    if (rc == 0) rc = hwloc_topology_set_flags(nt, hwloc_topology_get_flags(topo));
+    if (rc == 0) rc = hwloc_topology_set_flags(nt, hwloc_topology_get_flags(topo) & ~(!strcmp(name, "xmlnf") ? HWLOC_TOPOLOGY_FLAG_NO_MEMATTRS : 0UL));
     if (rc == 0) rc = hwloc_topology_set_xmlbuffer(nt, buf, len);
     if (rc == 0) rc = hwloc_topology_load(nt);
     e = errno;
@@ -474,7 +474,7 @@ static void do_op(char *line)
   snprintf(copy, sizeof copy, "%s", t[0]);
   for (p = copy; *p; p++) if (*p == ' ') *p = '_';
   op = copy;
-  if (!topo) { res_bad(op); if (!strcmp(op, "restrict") || !strcmp(op, "dup") || !strcmp(op, "xml") || !strcmp(op, "xmlt")) print_table(); return; }
+  if (!topo) { res_bad(op); if (!strcmp(op, "restrict") || !strcmp(op, "dup") || !strcmp(op, "xml") || !strcmp(op, "xmlt") || !strcmp(op, "xmlnf")) print_table(); return; }
 
   if (!strcmp(op, "reg")) {
     unsigned long flags; hwloc_memattr_id_t id = (hwloc_memattr_id_t)-1; int rc, e;
@@ -560,6 +560,11 @@ static void do_op(char *line)
     print_table();
   } else if (!strcmp(op, "xml")) {
     op_xml();
+  } else if (!strcmp(op, "xmlnf")) {
+    /* XML round trip where the reload drops HWLOC_TOPOLOGY_FLAG_NO_MEMATTRS: the attributes registered by the
+     * application on a NO_MEMATTRS topology must arrive in an ordinary topology */
+    op_xml_named("xmlnf");
+    extra_topoflags &= ~HWLOC_TOPOLOGY_FLAG_NO_MEMATTRS;
   } else if (!strcmp(op, "xmlt")) {
     op_xmlt(t, nt);
   } else if (!strcmp(op, "allow")) {
